@@ -179,6 +179,11 @@ func c20(c *Ctx) {
 					switch x := ref.(type) {
 					case *ssa.DebugRef:
 						continue
+					case *ssa.Phi:
+						if phi.Block().Dominates(x.Block()) && core.InCycle(x.Block()) {
+							continue // merge of the same accumulation inside the loop
+						}
+						bad = append(bad, fmt.Sprintf("the readers slice is merged with another value at %s", c.P.Pos(x.Pos())))
 					case *ssa.Call:
 						if x == ci.(*ssa.Call) {
 							continue
